@@ -59,6 +59,10 @@ CHECKS = {
    technique="exhaustive enumeration of a datagram alphabet x connection-id classes x sources against real socket workers over loopback (mio and io_uring), fenced per socket, oracle from an independent BEP 15 decoder and a clone of the validator",
    text="~2300 datagrams per backend configuration (connect shapes, announce events / numwant extremes / port 0 / extension bytes up to 5000 / 97 bytes / unknown event, scrapes of 1..255 hashes incl. the 23/24 and 70/71 boundaries, empty and ragged hash lists, unknown action, every truncation length, every single-bit flip of one announce and one scrape) x {valid, other-source, far-future, forged, stale} connection ids x sources 127.0.0.1, 127.0.0.2, ::1 are sent to real run_socket_worker threads (mio / io_uring, 1 and 2 workers); each reply is attributed by transaction id, absence is established by a fence connect on the same socket; at most one reply, to the sender only, of the right kind, nothing but a <= request-size connect reply without a valid id, scrape entries exactly the first max_scrape_torrents in order, swarm state unchanged by rejected datagrams.",
    note="Scheduling inside the workers is not controlled; source port 0 is covered at parser level (C12) only; datagrams beyond 5 KiB not sent."),
+ "C18": dict(level="exploration", engine="netmc", ref="§3 C18",
+   technique="exhaustive enumeration of configuration values against real trackers started through run() in child processes, worst-case accepted request per value, control request of identical length",
+   text="For UDP (mio and io_uring, IPv4 and IPv6) and HTTP, every configuration value in the tier's range (quick: 0, 1, defaults, both sides of each buffer threshold; thorough: every value 0..=600 plus IPv4 thresholds, every u8 max_scrape_torrents) starts a real tracker through run() - or the start-up is observed to be refused; the swarm is filled to exactly the limit and to limit+1 and the request with the largest possible reply is sent; HTTP scrapes of every hash count the request buffer admits are sent, each paired with a same-length control request, so that a closed connection or silence with an answered control is a reply that did not fit.",
+   note="Requests the request path rejects are out of scope (C06/C16); counters are small (buffers are sized for 20-digit counters)."),
 }
 
 NOT_YET = {}
